@@ -192,11 +192,15 @@ func cmdVerify(args []string) {
 	jobs := fs.Int("j", 6, "parallel obligations")
 	dump := fs.String("dump", "", "directory to dump SMT queries into")
 	verbose := fs.Bool("v", false, "verbose")
+	unroll := fs.Int("unroll", 0, "validation: encode in the under-approximating mode with this many copies of each loop body; on code whose contracts hold no obligation may be refuted there")
 	fs.Parse(args)
 	initWorkDir()
 	defer os.RemoveAll(workDir)
 	t0 := time.Now()
 	ctx, err := Load(*repo, fs.Args())
+	if err == nil && *unroll > 0 {
+		ctx.firstIter, ctx.unroll = true, *unroll
+	}
 	if err != nil {
 		fmt.Fprintln(os.Stderr, "load:", err)
 		os.RemoveAll(workDir)
